@@ -44,7 +44,7 @@ def run(ctx):
     if not r.ok:
         print(r.out[-3000:])
         raise vf.Inconclusive("LocalQueue model violates %s (specification error)" % r.violated)
-    ctx.build_harness(("zeno-verif",))
+    ctx.build_harness(("zeno-verif", "unit-verif"))
     import random
     rng = random.Random(ctx.seed)
     modes = []
@@ -116,6 +116,13 @@ def run(ctx):
             if "not crawled again" in why and url in seen2:
                 key += ": skipped as already seen (its seencheck record was written before the crash)"
             ctx.report("%s [%s]" % (why, mode), replay_src=cat, tag="case", key=key)
+    # the restart step on its own, with no time between claim and restart (a process restart here always takes > 1 s)
+    if not ctx.replay:
+        ipath = os.path.join(ctx.scratch, "c04init.ndjson")
+        ctx.run_bin("unit-verif", ["c04init", ipath, "5" if quick else "40"], timeout=600)
+        im = ctx.validate("C04_Mon", "C04_mon.cfg", ipath, name="mon-init")
+        for v in im["viols"]:
+            ctx.report("%s [restart step right after the claim]" % v["why"], replay_src=ipath, tag="init", key=v["why"])
     ctx.cov.update({
         "states": r.distinct, "transitions": r.generated, "exhaustive": True,
         "traces_validated_against_impl": len(traces),
